@@ -354,12 +354,24 @@ class Mod(object):
             self.src = data.decode("utf-8", "replace")
         self.tree = ast.parse(self.src, filename=path)
         set_parents(self.tree)
+        self.name = name
         for n in ast.walk(self.tree):
             n._mod = self
         self.defs = {}
         self._index(self.tree, "")
         self.imports = {}
         self._imports()
+        self.normal = {"inlined": 0, "propagated": 0, "renamed": 0}
+        if getattr(repo, "normalise", True):
+            try:
+                from . import normal
+                self.normal = normal.normalise(self)
+            except Exception:      # normalisation is an aid, never a reason to fail
+                pass
+            if any(self.normal.values()):
+                ast.fix_missing_locations(self.tree)
+                set_parents(self.tree)
+                self.reindex()
         self.top = {}
         for st in self.tree.body:
             if isinstance(st, ast.Assign):
@@ -368,6 +380,14 @@ class Mod(object):
                         self.top[t.id] = st.value
             elif isinstance(st, ast.AnnAssign) and isinstance(st.target, ast.Name) and st.value is not None:
                 self.top[st.target.id] = st.value
+
+    def reindex(self):
+        """Rebuild the definition index and node links after the view was normalised."""
+        for n in ast.walk(self.tree):
+            n._mod = self
+        self.defs = {}
+        self._index(self.tree, "")
+        _LOCAL_CACHE.clear()
 
     def _index(self, node, prefix):
         for ch in ast.iter_child_nodes(node):
@@ -457,6 +477,7 @@ class Repo(object):
     def __init__(self, root, overlay=None):
         self.root = os.path.abspath(root)
         self.overlay = dict(overlay or {})   # relpath -> source text (self-test mutants, never written to disk)
+        self.normalise = True                # rename locals to the pinned names (sa/alpha.py)
         self._mods = {}
         self._all = None
         self._classes = None
